@@ -211,7 +211,7 @@ Proof.
   assert (SD : forall h1 k x, wf_heap h1 -> wf_heap (set_datum h1 k x) /\
             (forall o2, allocated h1 o2 -> allocated (set_datum h1 k x) o2)).
   { intros h1 k x W1. destruct (wf_heap_same_lvs h1 (set_datum h1 k x) eq_refl eq_refl) as (A & B & _). auto. }
-  destruct e as [m ls dl|m ls v|m ls|m ls ex|]; cbn [exec_effect]; [| | | |discriminate];
+  destruct e as [m ls dl|m ls v|m ls|m ls ex|m ls ox|]; cbn [exec_effect]; [| | | | |discriminate];
     destruct (nth_error objs m) as [[o d]|] eqn:NE; try discriminate;
     pose proof (AO o d (nth_error_In _ _ NE)) as A.
   - destruct (get_datum h o d ls now) as [[h1 k]|] eqn:G; [|discriminate]. intros X. injection X as <-.
@@ -226,6 +226,9 @@ Proof.
     destruct (lv_find ls (obj_lvs h o)); [|discriminate]. intros X. injection X as <-.
     split; [apply wf_heap_set; [exact W|exact A|]|intros o2; apply allocated_set].
     rewrite lv_upd_labels by reflexivity. apply W.
+  - destruct (get_datum h o d ls now) as [[h1 k]|] eqn:G; [|discriminate]. intros X. injection X as <-.
+    destruct (GD _ _ _ _ _ A G) as (W1 & A1). destruct (SD h1 k (mkdatum (obs_dval (dv (datum_of h1 k)) ox) now) W1) as (W2 & A2).
+    split; [exact W2|]. intros o2 H. apply A2, A1, H.
 Qed.
 
 Lemma exec_effects_wf objs now : forall es h,
@@ -272,7 +275,7 @@ Proof.
     destruct (IH _ _ _ B Fa) as (AL & LE).
     assert (NA : nlookup o (ph_lvs ha) <> None).
     { unfold alloc_obj in A.
-      destruct (d_keys d); [destruct (N.eqb (d_kind d) 1)|]; injection A as <- <-; cbn [ph_lvs];
+      destruct (prealloc d); injection A as <- <-; cbn [ph_lvs];
         rewrite nlookup_app_none by (apply fresh_none; [exact F|lia]); cbn [nlookup]; rewrite N.eqb_refl; discriminate. }
     split.
     + intros o2 d2 [I|I]; [|exact (AL _ _ I)]. injection I as <- <-. unfold allocated.
@@ -281,7 +284,7 @@ Proof.
       (* allocated by this very step: o2 = o *)
       assert (o2 = o).
       { unfold alloc_obj in A.
-        destruct (d_keys d); [destruct (N.eqb (d_kind d) 1)|]; injection A as <- <-; cbn [ph_lvs] in Q;
+        destruct (prealloc d); injection A as <- <-; cbn [ph_lvs] in Q;
           rewrite nlookup_app_none in Q by exact N2; cbn [nlookup] in Q;
           (destruct (N.eqb o2 (ph_nexto h)) eqn:E2; [apply N.eqb_eq in E2; exact E2|discriminate]). }
       subst o2. unfold obj_lvs in *. rewrite Q in Ln. rewrite (Lb _ _ Q). exact Ln.
